@@ -62,10 +62,15 @@ def build(case: dict[str, Any]) -> tuple[EnOptConfig, AffineEvaluator, PluginMan
         cfg["objectives"]["function_estimators"] = case["obj_est"]
     if case["filters"]:
         cfg["objectives"]["realization_filters"] = case["obj_filt"]
+        if c_n and case.get("con_filt") is not None:
+            cfg.setdefault("_con_filt", case["con_filt"])
+    con_filt = cfg.pop("_con_filt", None)
     if c_n:
         cfg["nonlinear_constraints"] = {"lower_bounds": [0.0] * c_n, "upper_bounds": [np.inf] * c_n}
         if len(case["estimators"]) > 1:
             cfg["nonlinear_constraints"]["function_estimators"] = case["con_est"]
+        if con_filt is not None:
+            cfg["nonlinear_constraints"]["realization_filters"] = con_filt
     manager = PluginManager()
     if case["sampler"]["kind"] == "design":
         design = np.array(case["sampler"]["samples"], dtype=np.float64).reshape(-1, p_n, n)
@@ -77,6 +82,9 @@ def build(case: dict[str, Any]) -> tuple[EnOptConfig, AffineEvaluator, PluginMan
         cfg["samplers"] = [{"method": case["sampler"]["method"], "shared": case["sampler"]["shared"]}]
         if case["sampler"].get("assign"):  # explicit per-variable assignment (all to sampler 0), also for fixed variables
             cfg["gradient"]["samplers"] = [0] * n
+        if case["sampler"].get("second"):  # two different built-in samplers on alternating variables
+            cfg["samplers"].append({"method": case["sampler"]["second"], "shared": not case["sampler"]["shared"]})
+            cfg["gradient"]["samplers"] = [i % 2 for i in range(n)]
     transforms = None
     if case["scales"] is not None:
         transforms = OptModelTransforms(variables=VariableScaler(np.array(case["scales"]), np.array(case["offsets_v"])))
@@ -278,7 +286,7 @@ def hypothesis_shard(item: dict[str, Any]) -> Collector:
             sampler: dict[str, Any] = {"kind": "design", "shape": shape, "samples": blocks}
         else:
             sampler = {"kind": "builtin", "method": draw(st.sampled_from(BUILTIN)), "shared": draw(st.booleans()),
-                       "assign": draw(st.booleans())}
+                       "assign": draw(st.booleans()), "second": draw(st.sampled_from([None, None, *BUILTIN])) if n > 1 else None}
         f_n = 0 if merge else draw(st.sampled_from([0, 0, 1]))
         filters = []
         if f_n:
@@ -294,6 +302,7 @@ def hypothesis_shard(item: dict[str, Any]) -> Collector:
             "estimators": estimators, "obj_est": [draw(st.integers(0, len(estimators) - 1)) for _ in range(k_n)],
             "con_est": [draw(st.integers(0, len(estimators) - 1)) for _ in range(c_n)],
             "filters": filters, "obj_filt": [draw(st.integers(-1, 0)) for _ in range(k_n)],
+            "con_filt": [draw(st.integers(-1, 0)) for _ in range(c_n)] if filters and draw(st.booleans()) else None,
             "mask": mask, "x": x, "lb": lb, "ub": ub,
             "magnitudes": [draw(st.sampled_from([1e-3, 1e-2, 0.1, 1.0])) for _ in range(n)],
             "boundary": [draw(st.integers(1, 3)) for _ in range(n)],
